@@ -420,6 +420,81 @@ class ExcFlow:
             return None, None
         return mod, mod.functions.get(rest)
 
+    def _print_raw_pieces(self, mod, fn, call: ast.Call) -> list[ast.AST]:
+        """The argument pieces of a print() call that reach the stream as they are (not constant, not a number, not escaped)."""
+        raw: list[ast.AST] = []
+
+        def piece(e, depth=0):
+            if isinstance(e, ast.Constant) or self.inv.folder.try_ev(mod.name, e, default=None) is not None:
+                return
+            if isinstance(e, ast.JoinedStr):
+                for v in e.values:
+                    piece(v, depth)
+                return
+            if isinstance(e, ast.FormattedValue):
+                if e.conversion in (ord('r'), ord('a')):
+                    return
+                piece(e.value, depth)
+                return
+            if isinstance(e, ast.Call) and call_name(e) in ('repr', 'ascii', 'len', 'int', 'id', 'hash', 'ord'):
+                return
+            if isinstance(e, ast.BinOp) and isinstance(e.op, (ast.Add, ast.Mod, ast.Mult)):
+                piece(e.left, depth)
+                piece(e.right, depth)
+                return
+            if isinstance(e, ast.IfExp):
+                piece(e.body, depth)
+                piece(e.orelse, depth)
+                return
+            if isinstance(e, ast.Starred):
+                piece(e.value, depth)
+                return
+            t = self.ctx.types.type_of(mod.name, e)
+            names = set(self.ctx.types.instance_names(t)) if t is not None else set()
+            if names and names <= {'builtins.int', 'builtins.bool', 'builtins.float'}:
+                return
+            if isinstance(e, ast.Name) and depth < 3:
+                d = self.single_def(fn, e)
+                if d is not e:
+                    piece(d, depth + 1)
+                    return
+            raw.append(e)
+        for a in call.args:
+            piece(a)
+        return raw
+
+    _STR_METHODS = frozenset('strip lstrip rstrip replace lower upper casefold title capitalize swapcase expandtabs join format '
+                             'center ljust rjust zfill removeprefix removesuffix translate'.split())
+
+    def _pattern_derived(self, fn, e: ast.AST, depth=0) -> bool:
+        """Is the expression (a piece of) the selector text: a name / attribute `pattern`, `.string` / `.group()` of a match,
+        a slice, a concatenation or a str-to-str method of such text, through local definitions (every plain definition of a
+        local counts). A call of anything else (a helper that is handed the match object) is not followed: no verdict."""
+        if isinstance(e, ast.Name):
+            if e.id == 'pattern':
+                return True
+            params = {a.arg for a in fn.args.posonlyargs + fn.args.args + fn.args.kwonlyargs}
+            if e.id in params or depth >= 3:
+                return False
+            return any(isinstance(st, ast.Assign) and any(isinstance(t, ast.Name) and t.id == e.id for t in st.targets)
+                       and self._pattern_derived(fn, st.value, depth + 1) for st in ast.walk(fn))
+        if isinstance(e, ast.Attribute):
+            return e.attr in ('pattern', 'string')
+        if isinstance(e, ast.Subscript):
+            return self._pattern_derived(fn, e.value, depth)
+        if isinstance(e, ast.Call):
+            if isinstance(e.func, ast.Attribute) and e.func.attr == 'group':
+                return True
+            if isinstance(e.func, ast.Attribute) and e.func.attr in self._STR_METHODS:
+                return self._pattern_derived(fn, e.func.value, depth) or any(self._pattern_derived(fn, a, depth) for a in e.args)
+            cn = call_name(e)
+            if cn in ('str', 'format') or cn.split('.')[0] == 'textwrap':
+                return any(self._pattern_derived(fn, a, depth) for a in e.args)
+            return False
+        if isinstance(e, (ast.BinOp, ast.JoinedStr, ast.FormattedValue, ast.IfExp, ast.Starred)):
+            return any(self._pattern_derived(fn, c, depth) for c in ast.iter_child_nodes(e) if isinstance(c, ast.expr))
+        return False
+
     def single_def(self, fn, e):
         """A local name with exactly one definition in fn (and not a parameter) stands for the defining expression."""
         for _ in range(3):
@@ -629,6 +704,20 @@ class ExcFlow:
                 errs = ev_const(n.args[1]) if len(n.args) > 1 else next((ev_const(k.value) for k in n.keywords if k.arg == 'errors'), None)
                 ok = has_err and errs in ('replace', 'ignore', 'backslashreplace', 'surrogateescape')
                 add('UnicodeDecodeError', 'decode', n, f'errors={errs!r}' if ok else None)
+            elif cn == 'print' and n.args:
+                # print() of text: a character the stream cannot encode (a lone surrogate on UTF-8) raises UnicodeEncodeError.
+                # Pieces that are constants, numbers or escaped (!r / !a / repr() / ascii()) cannot; a raw piece that is derived
+                # from the pattern text (the `pattern` parameter / attribute, a regex group of a match on it) can; any other raw
+                # piece is listed as undecided (its origin is not traced).
+                raw = self._print_raw_pieces(mod, fn, n)
+                tainted = [p for p in raw if self._pattern_derived(fn, p)]
+                if tainted:
+                    add('UnicodeEncodeError', 'print', n).text += f'  [raw pattern text: {unparse(tainted[0])[:50]}]'
+                elif raw:
+                    add('UnicodeEncodeError', 'print', n, 'UNDECIDED: raw piece(s) ' + ', '.join(unparse(p)[:30] for p in raw[:3])
+                        + ' not traced to the pattern text')
+                else:
+                    add('UnicodeEncodeError', 'print', n, 'every non-constant piece is a number or escaped with !r / !a / repr() / ascii()')
             elif cn == 'next' and len(n.args) == 1:
                 add('StopIteration', 'next', n)
             elif self.ext_name(mod, n) == 'itertools.islice' and len(n.args) >= 2:
